@@ -135,6 +135,15 @@ def main():
         violations = len(unknown)
         # prefer a concrete failing input (judge failed) and shrink it
         unknown.sort(key=lambda u: (not u["failing_input"], len(u["case"])))
+        if not unknown[0]["failing_input"] and hasattr(prop, "search"):
+            # proof/correspondence broke without a judged failure: look for a concrete failing input near the divergences
+            try:
+                w = prop.search(unknown, C)
+            except Exception as e:
+                w = None
+                print("  search for a failing input raised %r" % (e,))
+            if w:
+                unknown.insert(0, dict(w, failing_input=True))
         u = unknown[0]
         if hasattr(prop, "shrink"):
             try:
